@@ -16,7 +16,8 @@ pub const SPEC: PropSpec = PropSpec {
     level: "exploration",
     rule: "seeded E1 runs: 1-4 uplinks created by the production create_connections_from_ips on 127.0.0.10+i, session established through the real handshake against a sim receiver, then 4000-8000 ticks in which the four real arms (client datagram via the real recv_from + handle_srt_packet, uplink datagram via handle_uplink_packet, flush_all_batches, handle_housekeeping + classifier + link CC) fire in a PRNG-chosen order under a virtual clock (steps 0..30 ms, occasional jumps across the 1 s / 4 s / 5 s / timeout / 30 s deadlines), packet rates 100 kbit/s..20 Mbit/s (all three batch regimes), bursts up to 200, data (unique 64-bit id, arbitrary sequence numbers, retransmit flag, 13..1500 B) and control datagrams, sim-receiver feedback (SRTLA ACKs, cumulative ACKs, NAKs from modelled loss, keepalive echoes) with delays, and fault plans: black-holed and return-less links, socket send errors (shutdown(Write) -> EPIPE), duplicate REG3, REG_ERR, critical windows. Every frame read from the receiver-side socket is matched byte-for-byte to the injected datagram with the same unique id; the log checker enforces intact / exactly one unique copy / duplicates only on gated links and at most 1 per 100 routed data packets / per-link order / queue conservation (routed = arrived + queued + permitted loss) / flush leaves no queue / threshold rule. Non-trivial = arm-order 4-grams of runs that carried data; distinct = distinct 6-grams of (arm kind x batch regime x some-link-gated x some-link-down) observed.",
     assumptions: &[
-        "loopback never reorders or drops (an increase of the host's UDP RcvbufErrors counter during the run makes the verdict inconclusive) and sendmmsg never returns short on it; short sends are not covered",
+        "loopback never reorders or drops (an increase of the host's UDP RcvbufErrors counter during the run makes the verdict inconclusive)",
+        "short sendmmsg results cannot be provoked on loopback UDP; a quarter of the cases therefore run every uplink over an AF_UNIX datagram socket pair with the kernel-minimum send buffer inside the real BatchUdpSocket (sendmmsg accepts ~2 datagrams per call, a drainer task on the same runtime empties the peer), which drives the short-send loop of send_all_datagrams",
         "E1 re-states ~40 lines of select! glue (arm bodies are the real functions)",
         "a datagram that left a queue in an arm in which its link was observed to fail (send error armed), be torn down, reconnect or process REG3 counts as permitted loss",
     ],
@@ -34,6 +35,8 @@ pub const SPEC: PropSpec = PropSpec {
         ("c01.cases_with_two_links_carrying_data", 20, 600),
         ("fault.black_hole", 50, 1_500),
         ("fault.socket_send_error_armed", 20, 600),
+        ("sim.short_send_sessions", 8, 250),
+        ("c01.short_send.flushes_over_4_datagrams", 200, 6_000),
     ],
 };
 
@@ -58,7 +61,7 @@ pub fn run_case(rng: &mut crate::prng::Rng, rep: &mut Report) {
         1 => Faults::Paths,
         _ => Faults::Heavy,
     };
-    let opts = StreamOpts { n_links, cfg: sc, ticks: 4000 + rng.usize_below(4000), probing: rng.chance(1, 2), faults, retransmit_pct: rng.below(15), control_pct: 4, critical_windows: rng.chance(1, 2), big_jumps: rng.chance(1, 3), initial_windows: None, loss_permille: *rng.pick(&[0, 0, 5, 30]), stall_min_in_flight_small: true, echo_fuzz: false, rate_pct: 100 };
+    let opts = StreamOpts { n_links, cfg: sc, ticks: 4000 + rng.usize_below(4000), probing: rng.chance(1, 2), faults, retransmit_pct: rng.below(15), control_pct: 4, critical_windows: rng.chance(1, 2), big_jumps: rng.chance(1, 3), initial_windows: None, loss_permille: *rng.pick(&[0, 0, 5, 30]), stall_min_in_flight_small: true, echo_fuzz: false, rate_pct: 100, short_sends: rng.chance(1, 4) };
     let want_sample = rep.wants_sample();
     let desc = format!("{opts:?}");
     let mut m = DeliveryMon::new(timeout);
